@@ -1,5 +1,5 @@
 (* C03/Driver.v — entry points for the correspondence run (sites L, G, S, J of harness/src/bin/c03.rs) *)
-From RM Require Import C08.Model C03.Model.
+From RM Require Import C08.Model C03.Model C03.ArgModel.
 Open Scope Z_scope.
 
 Definition lim_z (l : limit) : Z := match l with Unlimited => -1 | Limited v => v end.
@@ -47,4 +47,13 @@ Definition run_json_modules (mods unl : list (Z * Z)) : option (list Z * list Z)
   match ends mods', ends unl' with
   | Some a, Some b => Some (a, b)
   | _, _ => None
+  end.
+
+(* A cases: parse_x86_arg_list on a function name (code points).  None = panic; Some None = no argument list;
+   Some (Some (cc, names)): cc 0 cdecl, 1 thiscall (the harness then sees an extra leading "this") *)
+Definition run_args (name : list Z) : option (option (Z * list (list Z))) :=
+  match parse_x86_arg_list Debug name with
+  | Ret None => Some None
+  | Ret (Some (cc, args)) => Some (Some (match cc with Cdecl => 0 | WindowsThisCall => 1 end, args))
+  | _ => None
   end.
